@@ -132,7 +132,7 @@ func (n *Network) RemoveAllBuses() {
 func (n *Network) Buses() []*Bus {
 	busSlice := n.buses.getValues()
 	slices.SortFunc(busSlice, func(a, b *Bus) int {
-		return strings.Compare(a.name, b.name)
+		return orCompare(strings.Compare(a.name, b.name), func() int { return compareEntityIDs(a.entityID, b.entityID) })
 	})
 	return busSlice
 }
